@@ -29,8 +29,9 @@ def gen_workload(rng, nops):
                 # the caller repeats its last SaveOffset (what a retry after an error looks like)
                 ops.append(dict(prev[-1]))
             elif prev and rng.random() < 0.3:
-                # rewind: the same subscription is set back to the first event of the log
-                ops.append({"kind": "save", "sub": prev[-1]["sub"], "ack_ix": appends[0]})
+                # rewind: the same subscription is set back to the first event of the log, or to the very start
+                # (OffsetOldest, which is what LoadOffset reports for a subscription that has never saved)
+                ops.append({"kind": "save", "sub": prev[-1]["sub"], "ack_ix": appends[0] if rng.random() < 0.5 else -1})
             else:
                 ops.append({"kind": "save", "sub": rng.choice(["s1", "s2"]), "ack_ix": rng.choice(appends)})
         elif r < 0.9:
@@ -130,6 +131,8 @@ def oracle(gens, dumped):
                     ref = acks.get(op["ack_ix"])
                     if ref and ref[0] == "ACK":
                         e["maybe"].add(ref[1])
+                    if op["ack_ix"] == -1:
+                        e["maybe"].add("<oldest>")
     j = 0
     prev_off = 0
     for (gi, i, op, status, ackoff) in seq:
@@ -162,6 +165,14 @@ def oracle(gens, dumped):
         v.append("the log holds %d events that were never acknowledged, in flight or attempted: first %s" % (len(events) - j, json.dumps(events[j])[:160]))
     for sub, e in saved_expect.items():
         got = (dumped.get("saved") or {}).get(sub, "")
+        if e["acked"] == "" and not e["maybe"] and sub in (dumped.get("resume") or {}):
+            # last acknowledged save was a rewind to the start (or nothing was ever saved): whatever string
+            # LoadOffset returns, a Read resumed from it must return the whole log
+            if dumped["resume"][sub] != len(events):
+                v.append("LoadOffset(%s) = %r after reopening resumes at %d of %d events; the last acknowledged SaveOffset set the subscription back to the start of the log" % (sub, got, len(events) - dumped["resume"][sub], len(events)))
+            continue
+        if "<oldest>" in e["maybe"] and (dumped.get("resume") or {}).get(sub) == len(events):
+            continue  # the in-flight rewind to the start took effect
         if got != e["acked"] and got not in e["maybe"]:
             v.append("LoadOffset(%s) = %r after reopening; last acknowledged SaveOffset was %r (in-flight candidates %s)" % (sub, got, e["acked"], sorted(e["maybe"])))
     return v
